@@ -308,7 +308,7 @@ pub fn raw_handler<'a, W: embedded_io::Write<Error = E>, E: embedded_io::Error>(
             for a in raw.args().args() {
                 cli.writer().write_str(" ")?;
                 let r = arg_repr(&a);
-                cli.writer().write_str(as_str(&r))?;
+                cli.writer().write_str(core::str::from_utf8(&r).expect("the handler received a string that is not valid UTF-8"))?;
             }
         }
     }
